@@ -25,7 +25,16 @@ pub enum EntropyFault {
     Bytes(Vec<u8>),
     /// The draw returns what the previous draw of the same kind returned (a stuck generator).
     RepeatPrevious,
+    /// A 32-bit draw returns the previous 32-bit draw with its lowest bit flipped (after a repeated
+    /// field-element draw this yields the NEGATION of the previous group element).
+    RepeatPreviousFlipped,
+    /// The generator reports failure: `try_fill_bytes` returns an error, the infallible calls panic
+    /// with `ENTROPY_FAILURE` (what `OsRng` does when the system source is unavailable).
+    Fail,
 }
+
+/// Panic payload of an infallible draw hit by `EntropyFault::Fail`.
+pub const ENTROPY_FAILURE: &str = "SIMRNG_ENTROPY_SOURCE_FAILED";
 
 /// Panic payload used when the per-operation draw budget is exhausted (livelock under fault).
 pub const BUDGET_PANIC: &str = "SIMRNG_DRAW_BUDGET_EXHAUSTED";
@@ -37,6 +46,7 @@ pub struct SimRng {
     pub faults_fired: usize,
     pub budget: usize,
     last_fill: Vec<u8>,
+    last_u32: u32,
 }
 
 pub fn key(seed: u64, label: &str) -> [u8; 32] {
@@ -58,6 +68,7 @@ impl SimRng {
             faults_fired: 0,
             budget: 1 << 16,
             last_fill: Vec::new(),
+            last_u32: 0,
         }
     }
 
@@ -98,7 +109,8 @@ fn apply(fault: &EntropyFault, dest: &mut [u8]) {
                 *b = *v.get(i).unwrap_or(&0);
             }
         }
-        EntropyFault::RepeatPrevious => {}
+        EntropyFault::RepeatPrevious | EntropyFault::RepeatPreviousFlipped => {}
+        EntropyFault::Fail => panic!("{}", ENTROPY_FAILURE),
     }
 }
 
@@ -106,14 +118,18 @@ impl RngCore for SimRng {
     fn next_u32(&mut self) -> u32 {
         // Always advance the underlying stream so that a fault does not shift later draws.
         let v = self.inner.next_u32();
-        match self.tick(DrawKind::U32) {
+        let out = match self.tick(DrawKind::U32) {
             None => v,
+            Some(EntropyFault::RepeatPrevious) => self.last_u32,
+            Some(EntropyFault::RepeatPreviousFlipped) => self.last_u32 ^ 1,
             Some(f) => {
                 let mut b = [0u8; 4];
                 apply(&f, &mut b);
                 u32::from_le_bytes(b)
             }
-        }
+        };
+        self.last_u32 = out;
+        out
     }
     fn next_u64(&mut self) -> u64 {
         let v = self.inner.next_u64();
@@ -140,6 +156,13 @@ impl RngCore for SimRng {
         self.last_fill = dest.to_vec();
     }
     fn try_fill_bytes(&mut self, dest: &mut [u8]) -> Result<(), rand_core::Error> {
+        if self.faults.get(&self.draws.len()) == Some(&EntropyFault::Fail) {
+            // the fallible call reports the failure instead of panicking; the buffer is untouched
+            let mut sink = vec![0u8; dest.len()];
+            self.inner.fill_bytes(&mut sink);
+            let _ = self.tick(DrawKind::Fill(dest.len()));
+            return Err(rand_core::Error::from(core::num::NonZeroU32::new(rand_core::Error::CUSTOM_START + 7).unwrap()));
+        }
         self.fill_bytes(dest);
         Ok(())
     }
